@@ -269,6 +269,7 @@ type Thread struct {
 	lib     bool // spawned by library code (not by the harness)
 	yielded bool
 
+	hook       bool
 	blockCount int // number of times this thread parked in a blocking operation
 	inDrain    bool
 }
@@ -324,7 +325,8 @@ type Machine struct {
 	onSync      Value // harness environment hook run before every synchronisation operation of the main thread
 	inEnv       bool
 	onBlock     Value // harness hook run when no thread can run (terminal state)
-	terminalRan bool
+	terminalRuns int
+	progress     bool // some thread other than the hook ran since the hook last ran
 }
 
 type obsTerm struct {
@@ -448,6 +450,9 @@ func (m *Machine) schedule() {
 			return
 		}
 		m.cur = t
+		if !t.hook {
+			m.progress = true
+		}
 		if !t.started {
 			t.started = true
 			go t.body()
@@ -484,10 +489,13 @@ func (m *Machine) pickThread() *Thread {
 		}
 	}
 	if len(run) == 0 {
-		if m.onBlock != nil && !m.terminalRan && !m.threads[0].done {
+		if m.onBlock != nil && !m.threads[0].done && (m.terminalRuns == 0 || m.progress) && m.terminalRuns < 16 {
 			// terminal state: let the harness inspect it (it may also release threads)
-			m.terminalRan = true
-			return m.newThread("at-terminal", m.onBlock, nil)
+			m.terminalRuns++
+			m.progress = false
+			t := m.newThread("at-terminal", m.onBlock, nil)
+			t.hook = true
+			return t
 		}
 		m.terminal()
 		return nil
